@@ -405,8 +405,16 @@ class Conn:
             pass
 
 
+# monitors that identify a connection by its source port in the proxy's records set this: every client connection then gets
+# a source port that no other connection of this process ever uses (the kernel would otherwise reuse a port for another
+# destination at once, and for the same destination later)
+UNIQUE_SRC = False
+
+
 async def open_conn(host, port, tls=None, local=None, timeout=5.0, rcvbuf=None):
     kw = {}
+    if local is None and UNIQUE_SRC:
+        local = ("::1" if ":" in host else "127.0.0.1", free_port())
     if tls is not None:
         kw["ssl"] = tls
         kw["server_hostname"] = "localhost"
